@@ -214,7 +214,10 @@ def c08(tier, seed, replay=None):
     if replay:
         return _replay("C08", replay)
     q = tier == "quick"
-    fams = [("nest", 2, None), ("nestq", 3, 1000) if q else ("nest", 3, None), ("fault", 2, None), ("ho", 3 if q else 4, None)]
+    # (threads2small: a nested differentiation in one thread while another thread enters and leaves traces - level allocation must not
+    #  be confused by foreign traces either; the full thread exploration is C20's)
+    fams = [("nest", 2, None), ("nestq", 3, 1000) if q else ("nest", 3, None), ("fault", 2, None), ("ho", 3 if q else 4, None),
+            ("threads2small", 2, 250 if q else 2000)]
     muts = [("nest", 2, MUT_GEQ), ("nest", 2, MUT_DEP), ("fault", 2, MUT_RESET)]
     t0 = time.time()
     v1, cov = run_agm("C08", tier, seed, fams, muts,
@@ -235,7 +238,8 @@ def c07(tier, seed, replay=None):
     if replay:
         return _replay("C07", replay)
     q = tier == "quick"
-    fams = [("ho", 4, None), ("nest", 2, None), ("nestq", 3, 800) if q else ("nest", 3, None)]
+    # mix: sparse (indexing) and dense cotangents meeting at one value, differentiated 1..3 times in every mode sequence
+    fams = [("ho", 4, None), ("mix", 3, None), ("nest", 2, None), ("nestq", 3, 800) if q else ("nest", 3, None)]
     muts = [("ho", 3, MUT_GEQ)]
     t0 = time.time()
     v1, cov = run_agm("C07", tier, seed, fams, muts,
